@@ -132,8 +132,10 @@ package bluemonday
 //@     lemma[C11] elementName == "a" && p.addTargetBlankToFullyQualifiedLinks && extHref(cleanAttrs) ==> hasKey(cleanAttrs, "target") && firstTargetBlank(cleanAttrs)
 //@     lemma[C11] elementName == "a" && linkOpts(p) && hasKey(cleanAttrs, "href") && hasBlankTarget(cleanAttrs) ==> hasKey(cleanAttrs, "rel") && relsHave(cleanAttrs, "noopener")
 //@   loop 1 "for _, htmlAttr := range attrs"
+//@     invariant fresh(cleanAttrs)
 //@     invariant[C02] attrsAdm(p, elementName, cleanAttrs)
 //@   loop 4 "for _, htmlAttr := range cleanAttrs"
+//@     invariant fresh(tmpAttrs)
 //@     invariant[C02] attrsAdm(p, elementName, cleanAttrs)
 //@     invariant[C02] attrsGood(p, elementName, tmpAttrs)
 //@     invariant[C03] urlsOK(p, elementName, tmpAttrs)
@@ -144,6 +146,7 @@ package bluemonday
 //@     invariant[C11] rangeindex < len(cleanAttrs)
 //@     after[C11] (hrefFound <==> hasKey(cleanAttrs, "href")) && (externalLink <==> extHref(cleanAttrs))
 //@   loop 6 "for _, htmlAttr := range cleanAttrs"
+//@     invariant fresh(tmpAttrs)
 //@     invariant[C11] len(tmpAttrs) == rangeindex + 1 && rangeindex < len(cleanAttrs)
 //@     invariant[C11] forall i int :: 0 <= i && i <= rangeindex ==> tmpAttrs[i].Key == cleanAttrs[i].Key && (cleanAttrs[i].Key != "rel" && cleanAttrs[i].Key != "target" ==> tmpAttrs[i].Val == cleanAttrs[i].Val)
 //@     invariant[C11] addNoFollow ==> relsHave(tmpAttrs, "nofollow")
@@ -164,6 +167,7 @@ package bluemonday
 //@     invariant[C03] p.requireParseableURLs ==> urlsOK(p, elementName, tmpAttrs)
 //@     invariant forall i int :: 0 <= i && i < len(cleanAttrs) ==> cleanAttrs[i] == pre(cleanAttrs[i])
 //@   loop 7 "for _, htmlAttr := range cleanAttrs"
+//@     invariant fresh(tmpAttrs)
 //@     invariant[C11] len(tmpAttrs) == rangeindex + 1 && rangeindex < len(cleanAttrs)
 //@     invariant[C11] forall i int :: 0 <= i && i <= rangeindex ==> tmpAttrs[i].Key == cleanAttrs[i].Key && (cleanAttrs[i].Key != "rel" ==> tmpAttrs[i].Val == cleanAttrs[i].Val)
 //@     invariant[C11] relsHave(tmpAttrs, "noopener")
@@ -226,3 +230,17 @@ package bluemonday
 //@   ensures result == hasTok(rel, token)
 //@   loop 0 "for _, t := range strings.Fields(rel)"
 //@     invariant forall j int :: 0 <= j && j <= rangeindex ==> !strings.EqualFold(at(fieldsArr(rel), 0, j), token)
+
+//@ func (*bluemonday.Policy).Sanitize
+//@   requires wfp(p) && p.initialized
+//@   requires[C16] !outFailed
+//@   modifies ghost outFailed, outN, outLast, outCount, tzCur, tzPrev, tzErr, sanEl, sanRes
+//@   modifies nothing
+//@   ensures[C15] strings.TrimSpace(s) == "" ==> result == s
+
+//@ func (*bluemonday.Policy).SanitizeBytes
+//@   requires wfp(p) && p.initialized
+//@   requires[C16] !outFailed
+//@   modifies ghost outFailed, outN, outLast, outCount, tzCur, tzPrev, tzErr, sanEl, sanRes
+//@   modifies nothing
+//@   ensures[C15] len(bytes.TrimSpace(b)) == 0 ==> result == b
